@@ -284,8 +284,8 @@ def directed(ctx, prefix="C03"):
             vs = [(rng.randint(-4, 4), rng.randint(-4, 4)) for _ in range(3)]
             if abs((vs[1][0] - vs[0][0]) * (vs[2][1] - vs[0][1]) - (vs[1][1] - vs[0][1]) * (vs[2][0] - vs[0][0])) < 1:
                 continue
-            pt = rng.choice([(rng.randint(-4, 4), rng.randint(-4, 4)), vs[0], ((vs[0][0] + vs[1][0]) / 2, (vs[0][1] + vs[1][1]) / 2),
-                             (sum(x for x, _ in vs) / 3, sum(y for _, y in vs) / 3)])
+            pt = rng.choice([(rng.randint(-4, 4), rng.randint(-4, 4)), (rng.randint(-6, 6), rng.randint(-6, 6)), vs[0],
+                             ((vs[0][0] + vs[1][0]) / 2, (vs[0][1] + vs[1][1]) / 2), (sum(x for x, _ in vs) / 3, sum(y for _, y in vs) / 3)])
         else:
             vs = [(rng.randint(-4, 4), rng.randint(-4, 4)) for _ in range(2)]
             if vs[0] == vs[1]:
@@ -308,7 +308,9 @@ def directed(ctx, prefix="C03"):
         p0 = g.Point(np.array(lift(pt), dtype=float))
         # the point's representative: a real factor of either sign, or (planar figures) a complex one — the library itself hands out
         # purely imaginary representatives of real points (Line.project / Line.mirror)
-        pf = rng.choice(FACT + ([1j, -2j, 1 + 1j, 0.5j] if kind != "poly3" else []))
+        pf = rng.choice(FACT)
+        if kind != "poly3" and rng.random() < 0.45:
+            pf = rng.choice([1j, -2j, 1 + 1j, 0.5j, -1j])
         p1 = g.Point(np.array(lift(pt), dtype=float) * pf)
         desc = f"directed {kind}.contains vertices={vs} factors={fac.ravel().tolist()} point={pt} point representative={np.asarray(p1.array).tolist()}"
         ctx.case(desc, nontrivial=True)
